@@ -103,6 +103,9 @@ func (a *Allocation) AddPermission(perms *Permission) {
 	}
 
 	perms.allocation = a
+	// Arm the timer before the permission becomes visible: Close() stops the timer of
+	// every permission it finds, also while the created callback below is still running.
+	perms.start(perms.timeout)
 	a.permissionsLock.Lock()
 	a.permissions[fingerprint] = perms
 	a.permissionsLock.Unlock()
@@ -114,8 +117,6 @@ func (a *Allocation) AddPermission(perms *Permission) {
 				a.RelayAddr, u.IP)
 		}
 	}
-
-	perms.start(perms.timeout)
 }
 
 // RemovePermission removes the net.Addr's fingerprint from the allocation's permissions.
